@@ -249,6 +249,17 @@ def check_relation(ctx, c):
             return
         if not _same(ctx, rel, a, b, mech, vtol=0.0):
             return
+        # automatic binning belongs to the points that are actually used: the sampled estimate with default bins equals the
+        # default-bin estimate of the sampled points
+        if size >= 4:
+            a3 = _est(arg(pos), f, None, sampling_size=size, sampling_seed=sseed, **kw)
+            b3 = _est(arg(pos[:, idx]), f[:, idx], None, **kw)
+            ctx.event("estimator_calls", 2)
+            if len(a3[0]) != len(b3[0]) or not np.allclose(a3[0], b3[0], rtol=1e-12, atol=0):
+                ctx.fail(dict(mech, what="sampling(auto-bins):bin-centres-differ"), f"{len(a3[0])} bins {np.asarray(a3[0])[:3]} vs {len(b3[0])} bins {np.asarray(b3[0])[:3]} for the sampled points")
+                return
+            if not _same(ctx, "sampling(auto-bins)", a3, b3, mech, vtol=0.0):
+                return
         # no repetitions: the total pair count of a wide single bin equals size*(size-1)/2 per field
         wide = _est(arg(pos), f, np.array([0.0, 1e6]), sampling_size=size, sampling_seed=sseed, **kw)
         if int(np.sum(wide[2])) != f.shape[0] * size * (size - 1) // 2:
